@@ -209,6 +209,19 @@ def run(res, tier, rng):
         if cm != cs:
             res.violation("correspondence", "model differs from the dictionary spec (model/harness bug)",
                           input=dict(history=h, queries=qs))
+    # a key longer than the interpreter's recursion limit (a long url as str key)
+    for n_tok in (1500, 4000):
+        hlong = [(["a"] * n_tok, 1), (["a"] * 3, 2), (["a"] * n_tok + ["b"], 3)]
+        qlong = [["a"] * n_tok, ["a"] * (n_tok + 1), ["a"] * 3, ["a", "b"]]
+        res.evaluations += 1
+        try:
+            ci = canon_obs(observe_impl(hlong, qlong, forms["str"]))
+        except BaseException as e:  # noqa
+            ci = dict(len=Exc(type(e).__name__))
+        cs = canon_obs(spec_obs(hlong, qlong))
+        if ci.get("len") != cs["len"] or ci.get("gets") != cs["gets"] or ci.get("lmpv") != cs["lmpv"] or sorted(map(repr, ci.get("values", []))) != sorted(map(repr, cs["values"])) or len(ci.get("items", [])) != len(cs["items"]):
+            res.violation("property", "TrieDict with a very long key is not the dictionary of its history", input=dict(key_lengths=[n_tok, 3, n_tok + 1], keyform="str"),
+                          impl={k_: (repr(v_)[:120]) for k_, v_ in ci.items() if k_ in ("len", "gets", "lmpv", "values")}, expected=dict(len=cs["len"], gets=cs["gets"], lmpv=cs["lmpv"]))
     mixed = ["a", "b", 1, 2, 2.5, None, ("t",), b"x"]
     for _ in range(600 if tier == "quick" else 10000):
         h = [([rng.choice(mixed) for _ in range(rng.randint(0, 3))], rng.choice([None, 0, 1, "x"])) for _ in range(rng.randint(1, 8))]
